@@ -126,7 +126,7 @@ func (c *Ctx) ruleC19() {
 	r.Rule("C19-BAN-AT-CREATION", "every construction of a Directive from a scanned keyword (directive.New*/composite literal in package core) is dominated by a comma-ok lookup of bannedDirectives keyed by the kind returned by NewDirectiveType, hit branch returning a non-nil error; if the lookup is not in the constructing function, every call path into it (3 levels) must pass such a lookup", 1)
 	r.Rule("C19-BAN-BEFORE-FS", "in the INCLUDE handler a lookup of bannedDirectives[directive.Include] with an error-returning hit branch dominates every call that reaches the file system or the scanner (parameter read)", 1)
 	r.Rule("C19-BAN-BEFORE-DISPATCH", "in addDirective the ban lookup keyed by d.Type() dominates the directiveFunctions dispatch", 1)
-	r.Rule("C19-BAN-READ-ONLY", "bannedDirectives is assigned only inside the closure returned by WithBannedDirectives, from a make() evaluated in that closure (one map per core); every other use is a comma-ok lookup, a nil test, len() or an index store in that closure", 3)
+	r.Rule("C19-BAN-READ-ONLY", "bannedDirectives is assigned only inside the closure returned by WithBannedDirectives, from a make() evaluated in that closure (one map per core); every other use is a nil test, len(), an index store in that closure, or a comma-ok lookup whose hit branch returns an error (the ban set decides nothing but the refusal of a directive of that kind)", 3)
 	ban := c.coreField("bannedDirectives")
 	if ban == nil {
 		r.Undecided("C19-BAN-AT-CREATION", "anchor", "field core.JApiCore.bannedDirectives not found", "")
@@ -482,7 +482,18 @@ func (c *Ctx) ruleC19() {
 					}
 					if len(as.Lhs) == 2 {
 						if id, ok := as.Lhs[0].(*ast.Ident); ok && id.Name == "_" {
-							r.Ok("C19-BAN-READ-ONLY", key+" (lookup)", "comma-ok lookup, value discarded", where)
+							// the only thing a hit may lead to is the refusal of that directive
+							refuses := false
+							for _, bl := range c.banLookups(f, ban) {
+								if bl.ifs.Init == ast.Stmt(as) {
+									refuses = true
+								}
+							}
+							if refuses {
+								r.Ok("C19-BAN-READ-ONLY", key+" (lookup)", "comma-ok lookup whose hit returns an error", where)
+							} else {
+								r.Bad("C19-BAN-READ-ONLY", key+" (lookup)", "the ban set is consulted for something else than refusing a directive (the hit branch does not return an error): a ban then changes how OTHER directives are processed - work is skipped, a pass is cut short - and documents that do not contain the banned directive build differently", where)
+							}
 							return true
 						}
 					}
